@@ -99,8 +99,9 @@ def run_stage(job):
                                    n_valid=a.get('n_valid', 3))
         res['digest'] = h5_digest(a['out'])
     elif st == 'querymarkers':
+        extra = {'search_for_stats_file': True} if a.get('search') else {}
         lk = stages.query_markers(a['refm'], a['genes'], a['tmp'], n_proc=a.get('n_proc', 2),
-                                  n_per_utility=a.get('n_per', 2), behemoth_cutoff=a.get('behemoth', 1000000))
+                                  n_per_utility=a.get('n_per', 2), behemoth_cutoff=a.get('behemoth', 1000000), **extra)
         lk.pop('log', None)
         res['lookup'] = lk
         res['digest'] = build.digest(lk)
